@@ -368,6 +368,12 @@ async def origin_h1(world, obs, conn, spec):
                         await _drain_until_closed(conn, idle)
                         return
                     continue
+                if spec.get("continue_on_expect") and (m.get(b"expect") or b"").strip().lower() == b"100-continue":
+                    # an RFC 9110 10.1.1 origin: a request that still carries the expectation is answered with an
+                    # interim 100 first (mitmproxy answers the client's expectation itself and strips the field)
+                    obs.origin_log.append((world.loop.time(), conn.id, "expect_continue", tok))
+                    world.net.fired("origin_100_continue")
+                    conn.feed(b"HTTP/1.1 100 Continue\r\n\r\n")
                 if r.get("delay"):
                     await asyncio.sleep(r["delay"])
                 if r.get("data"):
